@@ -643,6 +643,42 @@ example : GoodI (Demo.sHalt 1) :=
   (run_one_preserves_wf failingExt failingExt_laws failingExt_good (Demo.sHalt 0) (Demo.sHalt 1) true
     (sHalt_goodI 0) (sHalt_small 0) (sHalt_disc 0 (.inl rfl)) rfl (sHalt_small 1)).1
 
+/-! ### T03.5 without `StackDiscAlong` (see the section of the same name in Proofs/C13.lean) -/
+
+/-- **T03.5 from the bundled invariant of the initial state**: `VmOk = GoodI ∧ WFS` (heap-simulation invariant
+    and WF-stack over the value-typed verifier), the laws of the unmodelled parts, the size bound, and the callee
+    guard at call sites. No `StackDiscAlong`. -/
+theorem gc_unobservable_wf (ext : ExtOps) (force : Bool) (o : ExtLaws ext) (eg : ExtGood ext)
+    (ecl : ExtCodeLawsV ext) (sched : Nat → Bool) (n : Nat) (s0 : St CHeap) (h0 : VmOk ext ecl s0)
+    (sb : SizeBounded (machine ext force) s0) (ca : CalleeOkAlong (machine ext force) s0) :
+    ResRel (Lemmas.Sim.R (machine ext force)) (runSched (machine ext force) sched n 0 s0)
+      (pureN (machine ext force) n s0) :=
+  gc_unobservable ext force o eg sched n s0 h0.1 sb (stackDiscAlong_of_wfs force o eg h0 sb ca)
+
+/-- … and the value is the same -/
+theorem gc_unobservable_value_wf (ext : ExtOps) (force : Bool) (o : ExtLaws ext) (eg : ExtGood ext)
+    (ecl : ExtCodeLawsV ext) (sched : Nat → Bool) (n : Nat) (s0 t' : St CHeap) (h0 : VmOk ext ecl s0)
+    (sb : SizeBounded (machine ext force) s0) (ca : CalleeOkAlong (machine ext force) s0)
+    (hk : pureN (machine ext force) n s0 = .done t') :
+    ∃ s', runSched (machine ext force) sched n 0 s0 = .done s' ∧
+      ∀ fuel, resultObs fuel s' = resultObs fuel t' :=
+  gc_unobservable_value ext force o eg sched n s0 t' h0.1 sb (stackDiscAlong_of_wfs force o eg h0 sb ca) hk
+
+/-- `run_one` preserves the bundled invariant **on the real machine** (heap invariant of T03.3 included) -/
+theorem run_one_preserves_vmOk (ext : ExtOps) (el : ExtLaws ext) (eg : ExtGood ext) (ecl : ExtCodeLawsV ext)
+    (s s' : St CHeap) (b : Bool) (h : VmOk ext ecl s) (hc : CalleeSite s → CalleeOk s) (sm : Small s.heap)
+    (hs : step (concreteOps ext) s = .ok (s', b)) (sm' : Small s'.heap) :
+    VmOk ext ecl s' ∧ WFHeap true (toHeap s'.heap) ∧ RootsOk (toHeap s'.heap) ((rootsOf s').refs true) :=
+  let h' := vmOk_step el eg h hc sm hs sm'
+  ⟨h', h'.1.hg.wf, h'.1.roots⟩
+
+open Marwood.Lemmas.Good.Demo in
+/-- non-vacuity -/
+example (sched : Nat → Bool) : ∃ s', runSched (machine failingExt false) sched 1 0 (Demo.sHalt 0) = .done s' ∧
+    ∀ fuel, resultObs fuel s' = resultObs fuel (Demo.sHalt 1) :=
+  gc_unobservable_value_wf failingExt false failingExt_laws failingExt_good failingExt_codeLawsV sched 1
+    (Demo.sHalt 0) (Demo.sHalt 1) (sHalt_vmOk _ _) (sHalt_sizeBounded _) (sHalt_calleeOkAlong _) rfl
+
 end UnobservableInv
 
 end Marwood.Proofs.C03
